@@ -409,7 +409,13 @@ theorem cert_state (h : C.OK) :
 
 /-- **C01 on a certified flattened text, shipped interpreter, every history**: after `mkSim`, zeroing the inputs, any
     covered history and `step (n+1)`: no error, and every name that denotes a net reads the py4hw simulator's value -/
-theorem cert_run (h : C.check = true) (ops : List Net.Op) (hops : ∀ op, op ∈ ops → C.OpOK op) (n : Nat) :
+theorem good_of_divFree (h : C.divFree = true) (V : Nat → Nat) : C.netD.good V := by
+  intro k hk
+  have := List.all_eq_true.mp h k hk
+  cases k <;> simp_all [GKind.isDm, GKind.good]
+
+theorem cert_run (h : C.check = true) (ops : List Net.Op) (hops : ∀ op, op ∈ ops → C.OpOK op) (n : Nat)
+    (hg : GoodRun C.netD (initC C.netD.design C.netD.st0 C.netD.cons) (ops ++ [Net.Op.clk (n + 1)])) :
     ((C.zeroOps ++ (ops ++ [Net.Op.clk (n + 1)])).foldl C.shipOp C.certSim).errors = [] ∧
     ∀ nm k, C.net nm = some k →
       ((C.zeroOps ++ (ops ++ [Net.Op.clk (n + 1)])).foldl C.shipOp C.certSim).st.rd.val nm =
@@ -429,11 +435,35 @@ theorem cert_run (h : C.check = true) (ops : List Net.Op) (hops : ∀ op, op ∈
   intro nm k hnk
   rw [hrd]
   have hsc := hok.seqCorr
-  have hc := run_corr hsc C.inName h0 ops (fun op hop => opOK_gen hok op (hops op hop))
-  have := (clk_corr hsc hc (n + 1)).2 (Nat.succ_pos n)
+  rw [goodRun_append] at hg
+  have hc := run_corr hsc C.inName h0 ops (fun op hop => opOK_gen hok op (hops op hop)) hg.1
+  have := (clk_corr hsc hc (n + 1) hg.2.1).2 (Nat.succ_pos n)
   have hv := (this nm k hnk).val
   simp only [runC, List.foldl_append, List.foldl, applyOpA, applyOp] at hv ⊢
   exact hv
+
+/-- the first observation of the protocol (`settle`, read): power-up values agree -/
+theorem cert_powerup (h : C.check = true) (hg : C.netD.good (initC C.netD.design C.netD.st0 C.netD.cons).val) :
+    (C.zeroOps.foldl C.shipOp C.certSim).settle.errors = [] ∧
+    ∀ nm k, C.net nm = some k →
+      (C.zeroOps.foldl C.shipOp C.certSim).settle.st.rd.val nm =
+        ⟨C.wd k, (initC C.netD.design C.netD.st0 C.netD.cons).val k, true⟩ := by
+  have hok := C.ok_of_check h
+  obtain ⟨hinv, h0, herr⟩ := cert_state hok
+  generalize C.zeroOps.foldl C.shipOp C.certSim = m0 at hinv h0 herr
+  have hC := hinv.cyc hok
+  have hs := sim_settle_rd m0 hC.nostar (topo := C.topo) hC.perm hC.acyc (hinv.lhs hok)
+  refine ⟨hs.2.1.trans herr, ?_⟩
+  intro nm k hnk
+  rw [hs.1, hinv.fassigns]
+  have hsc := hok.seqCorr
+  have hc := powerup_corr hsc h0
+  have hidem : C05.PropIdem C.netD.design := C04.propIdem C.netD.design C.netD.comb hsc.sched.1
+  have hfix : propagateAll C.netD.design (initC C.netD.design C.netD.st0 C.netD.cons)
+      = initC C.netD.design C.netD.st0 C.netD.cons := hidem _
+  have := observe_corr hsc hc (by rw [hfix]; exact hg) nm k hnk
+  rw [hfix] at this
+  exact this.val
 
 end CertSrc
 end FlatM
